@@ -68,7 +68,9 @@ func c10E1(r *core.Run) {
 			}
 			h := sha1.Sum([]byte(key + "258EAFA5-E914-47DA-95CA-C5AB0DC85B11"))
 			var w rawhttp.Builder
+			// (sticky-session style: the backend sets a cookie on the handshake response as well)
 			w.Line("HTTP/1.1 101 Switching Protocols").Field("Upgrade", "websocket").Field("Connection", "Upgrade").
+				Field("Set-Cookie", "backendws=ws-"+tok+"; Path=/").
 				Field("Sec-WebSocket-Accept", base64.StdEncoding.EncodeToString(h[:])).End()
 			conn.Write(w.Bytes())
 			conn.SetDeadline(time.Now().Add(20 * time.Second))
@@ -119,13 +121,15 @@ func c10E1(r *core.Run) {
 			if st == 0 {
 				path, shim = "/app/login", false
 			}
+			// one step per history is a direct websocket handshake by the client (not the shim's open call)
+			directUpgrade := !shim && sid != "" && st == 5
 			own := ""
 			if rng.Intn(3) == 0 {
 				own = "theme=dark-" + tok
 			}
 			// what the backend will set (plain requests only)
 			var set []string
-			if !shim {
+			if !shim && !directUpgrade {
 				switch rng.Intn(4) {
 				case 0:
 					set = []string{"auth=a-" + tok + "; Path=/app", "root=r-" + tok + "; Path=/"}
@@ -180,7 +184,13 @@ func c10E1(r *core.Run) {
 				w.WriteString(body)
 			} else {
 				method = []string{"GET", "GET", "OPTIONS", "POST", "DELETE", "PUT", "PROPFIND"}[(h+st)%7]
+				if directUpgrade {
+					method = "GET"
+				}
 				w.Line(method+" "+path+" HTTP/1.1").Field("Host", host).Field("X-Tok", tok)
+				if directUpgrade {
+					w.Field("Connection", "Upgrade").Field("Upgrade", "websocket").Field("Sec-WebSocket-Version", "13").Field("Sec-WebSocket-Key", "dGhlIHNhbXBsZSBub25jZQ==")
+				}
 				writeCookies(&w)
 				if method == "POST" || method == "PUT" {
 					w.Field("Content-Length", "0")
@@ -193,6 +203,9 @@ func c10E1(r *core.Run) {
 			kind := "plain"
 			if shim {
 				kind = "shim-open"
+			}
+			if directUpgrade {
+				kind = "direct-upgrade"
 			}
 			r.Case(fmt.Sprintf("e1|%s %s|path=%s|own=%v|sets=%d|has-session=%v|cookies=%s", kind, method, path, own != "", len(set), sid != "", layout))
 			if !ok || up.Resp == nil {
